@@ -44,6 +44,13 @@ def call(ex, node, state):
             if is_tag(v, 'intquot'):
                 return v[1]
             raise Unsupported('int() of %s at line %d' % (type(v).__name__, line))
+        if nm in ('max', 'min') and len(node.args) == 2 and not node.keywords:
+            a, b = ex.ev(node.args[0], state), ex.ev(node.args[1], state)
+            if (is_conc_int(a) or isinstance(a, z3.ArithRef)) and (is_conc_int(b) or isinstance(b, z3.ArithRef)):
+                if is_conc_int(a) and is_conc_int(b):
+                    return max(a, b) if nm == 'max' else min(a, b)
+                return z3.If(zi(a) >= zi(b), zi(a), zi(b)) if nm == 'max' else z3.If(zi(a) <= zi(b), zi(a), zi(b))
+            raise Unsupported('%s() of non-integers at line %d' % (nm, line))
         if nm in ('all', 'any'):
             v = ex.ev(node.args[0], state)
             return all_any(ex, state, v, nm, line)
